@@ -30,9 +30,12 @@ ALPH_PRE = "all(c in 'a %?#|' + chr(34) + chr(0xdcff) for c in tail)"
 TYPES = ["0", "1", "7", "h", "9"]
 
 
-def body_roundtrip(kind: int, t: int, tail: str, name: str, search: bool) -> bool:
+def body_roundtrip(kind: int, t: int, tail: str, name: str, search: bool, oddprefix: bool = False) -> bool:
     """render_P(entry) -> link -> client's request -> real detection + handle -> handler selection."""
     cfg = hx.DictConfig(True)
+    if oddprefix:
+        # a WAP prefix that also occurs inside (quoted) selectors: it must be removed from the front only
+        cfg.set("protocols.wap.WAPProtocol", "waptop", "/Q")
     sel = "/d/" + tail
     if tail.endswith(" ") or tail == "" or tail.endswith("/"):
         return True  # not a canonical selector / not expressible (trailing blank)
@@ -60,11 +63,27 @@ def body_roundtrip(kind: int, t: int, tail: str, name: str, search: bool) -> boo
         if ekind == 0:
             target = target[0]
         hx.require(target is not None, "C05:no-link-rendered:%s" % dl.PROTO_NAMES[kind], lambda: repr(text))
-        if kind == 4 and typ == "7":
-            # Gemini search items go through the input prompt first; the redirect leads to selector?query
-            hx.require(target.startswith("/GEMINI-QUERY"), "C05:gemini-search-link", lambda: repr(text))
-            target = target[len("/GEMINI-QUERY"):]
         srch = "q" if (search and kind != 5) else None
+        if kind == 4 and typ == "7":
+            # Gemini search items: link -> input prompt (status 10) -> submit -> redirect (status 30) -> follow
+            hx.require(target.startswith("/GEMINI-QUERY"), "C05:gemini-search-link", lambda: repr(text))
+            w1 = hx.ListWriter()
+            p1 = dl.make_protocol(4, "/x", cfg, w1)
+            p1.request = "gemini://srv.example" + target + "\r\n"
+            p1.handle()
+            hx.require(w1.gettext().startswith("10 "), "C05:gemini-search-prompt-missing", lambda: repr(w1.gettext()))
+            w2 = hx.ListWriter()
+            p2 = dl.make_protocol(4, "/x", cfg, w2)
+            p2.request = "gemini://srv.example" + target + "?q\r\n"
+            p2.handle()
+            red = w2.gettext()
+            hx.require(red.startswith("30 ") and red.endswith("\r\n"), "C05:gemini-search-redirect-missing", lambda: repr(red))
+            loc = red[3:-2]
+            hx.require(loc.endswith("?q"), "C05:gemini-search-redirect-loses-query", lambda: repr(red))
+            target = loc[:-2]
+            srch = "q"
+        if oddprefix and kind == 3:
+            hx.require(target.startswith("/Q/Q"), "C05:wap-prefix-not-prepended", lambda: repr(text))
         req, tls = rl.client_request(kind, target, srch)
         try:
             seen, pname = rl.follow(kind, req, tls, cfg)
@@ -244,8 +263,8 @@ def obligations(tier, seed):
         for t in range(len(TYPES)):
             if tier == "quick" and t not in (0, 1, 2):
                 continue
-            obs.append(Ob(id="C05.1-roundtrip[%s,type=%s]" % (dl.PROTO_NAMES[kind], TYPES[t]), body="harness.C05:body_roundtrip", sig="kind: int, t: int, tail: str, name: str, search: bool",
-                          pre=["kind == %d" % kind, "t == %d" % t, "1 <= len(tail) <= %d" % n, ALPH_PRE, "len(name) <= 1", "all(c in 'n <&' for c in name)"], timeout=300 if tier == "quick" else 1500,
+            obs.append(Ob(id="C05.1-roundtrip[%s,type=%s]" % (dl.PROTO_NAMES[kind], TYPES[t]), body="harness.C05:body_roundtrip", sig="kind: int, t: int, tail: str, name: str, search: bool, oddprefix: bool",
+                          pre=["kind == %d" % kind, "t == %d" % t, "1 <= len(tail) <= %d" % n, ALPH_PRE, "len(name) <= 1", "all(c in 'n <&' for c in name)"] + ([] if kind == 3 else ["oddprefix == False"]), timeout=300 if tier == "quick" else 1500,
                           desc="%s: the link rendered for a local type-%s entry with a symbolic selector, sent back as that protocol's request, reaches handler selection as exactly the entry's selector "
                                "(one decoding, surrogateescape on both sides, WAP prefix / Gemini query prefix / '?' splitting handled consistently)" % (dl.PROTO_NAMES[kind], TYPES[t]),
                           bounds="selector = '/d/' + tail, |tail| <= %d over {a SPACE %% ? # | \" U+DCFF}; name |n| <= 1; with/without search" % n,
